@@ -118,6 +118,7 @@ structure World where
   handles : List Op := []
   lastIoStarved : Bool := false     -- the last I/O event of the current POLL was `rs`
   wakes : Nat := 0                  -- self-wakes in the current POLL
+  lastRes : Option (Except Err Unit) := none   -- result of the operation that completed last
   out : List String := []           -- trace, newest first
   deriving Inhabited
 
